@@ -305,21 +305,36 @@ def judge(chk, hy, src, span, rtext, exc, cid, rid, k):
 
 # ------------------------------------------------------------------ AST-level containment (the model theorem on the real compiler)
 
+# fixed 864e213: the BoolOp of and/or took its position from its first operand; an operand compiling to an empty Result
+# (force_expr -> None constant at line 0) put the BoolOp, and a traceback from a later operand's truth test, at line 0
+AST_CORPUS = [
+    "\n\n(setv x (or\n  (import)\n  a\n  3))\n",
+    "\n(^=\n  (get b\n    2) (- a-b g foo\n    (and\n      (import) (.\n        a\n        pi))))\n",
+    "\n\n\n(defn f []\n  (and (do)\n    a b))\n",
+]
+
+
 def ast_containment(chk, hy, n_programs):
     from props import valid_gen
     rng = chk.rng
     gen = valid_gen.G(hy, rng, max_depth=4, compile_time_heads=False)
     done = 0
     attempts = 0
-    while done < n_programs and attempts < n_programs * 6:
+    pending = list(AST_CORPUS)
+    while pending or (done < n_programs and attempts < n_programs * 6):
         attempts += 1
-        forms = [gen.headed(1) if rng.random() < 0.8 else gen.form(0) for _ in range(rng.randint(1, 3))]
-        # render over several lines: every sequence opens a new line with probability 1/2
-        try:
-            text = "\n\n".join(render_multiline(hy, rng, f) for f in forms)
-        except Exception:
-            continue
-        src = "\n" * rng.randint(0, 3) + text + "\n"
+        if pending:
+            # minimised former failures run first (known_findings.json: fixed entries of C17)
+            src = pending.pop(0)
+            chk.count("ast:corpus")
+        else:
+            forms = [gen.headed(1) if rng.random() < 0.8 else gen.form(0) for _ in range(rng.randint(1, 3))]
+            # render over several lines: every sequence opens a new line with probability 1/2
+            try:
+                text = "\n\n".join(render_multiline(hy, rng, f) for f in forms)
+            except Exception:
+                continue
+            src = "\n" * rng.randint(0, 3) + text + "\n"
         mod = types.ModuleType("zq_c17ast")
         sys.modules["zq_c17ast"] = mod
         try:
